@@ -58,7 +58,11 @@ class Layout:
         if not isinstance(other, Layout):
             return NotImplemented
         return (
-            self.static_traps == other.static_traps and self.fillable == other.fillable
+            self.static_traps == other.static_traps
+            and self.fillable == other.fillable
+            and self.has_cz == other.has_cz
+            and self.has_local == other.has_local
+            and self.special_grid == other.special_grid
         )
 
     def bounding_box(self) -> tuple[float, float, float, float]:
